@@ -162,6 +162,143 @@ def minimise_r(worlds: list[dict[str, str]], cfg: tuple[str, str]) -> list[dict[
     return cur
 
 
+
+# ----------------------------------------------------------------------------- catalogue T (transitive structure)
+# import cycles, a submodule that is only reachable through somebody else's import two levels below, a package that
+# is missing / a source package / a stub package, and the follow-imports mode.  Each dimension is a small enum; a world
+# is a dict; files are derived from it.
+T_DIMS: dict[str, list[str]] = {
+    "cycle": ["0", "1"],        # forms imports views back (views <-> forms)
+    "uses": ["0", "1"],         # views uses pkg.mod.C without importing pkg.mod itself
+    "loader": ["0", "1"],       # loader (views -> helpers -> loader) does `import pkg.mod`
+    "mainimp": ["0", "1"],      # main imports pkg.mod itself (keeps it in the build)
+    "modv": ["0", "1"],         # pkg/mod.py content version (type of C.n)
+    "spkg": ["-", "py", "pyi"], # `spkg` package: absent, sources, stubs (main does `from spkg import sub`)
+}
+T_DEFAULT = {"cycle": "0", "uses": "0", "loader": "0", "mainimp": "0", "modv": "0", "spkg": "-"}
+
+
+def t_files(w: dict[str, str]) -> dict[str, str | None]:
+    f: dict[str, str | None] = {}
+    f["main.py"] = "import views\n" + ("import pkg.mod\n" if w["mainimp"] == "1" else "") + "from spkg import sub\nsub.f(int())\n"
+    f["views.py"] = "import forms\nimport helpers\nimport pkg\n" + ("def v() -> int:\n    return pkg.mod.C().n\n" if w["uses"] == "1" else "def v() -> int:\n    return 1\n")
+    f["forms.py"] = ("import views\n" if w["cycle"] == "1" else "") + "def g() -> int:\n    return 1\n"
+    f["helpers.py"] = "import loader\n"
+    f["loader.py"] = ("import pkg.mod\n" if w["loader"] == "1" else "") + "x = 1\n"
+    f["pkg/__init__.py"] = ""
+    f["pkg/mod.py"] = "class C:\n    n: %s\n" % ("int = 0" if w["modv"] == "0" else "str = ''")
+    ext = {"py": "py", "pyi": "pyi"}.get(w["spkg"])
+    for e in ("py", "pyi"):
+        f["spkg/__init__." + e] = "" if e == ext else None
+        f["spkg/sub." + e] = ("def f(x: str) -> None: ...\n" if e == "pyi" else "def f(x: str) -> None:\n    pass\n") if e == ext else None
+    return f
+
+
+def replay_t_history(args: tuple[list[dict[str, str]], tuple[str, str], str]) -> dict[str, Any]:
+    worlds, (store, fmt), follow = args
+    W.preload()
+    root = scratch("c02t-")
+    src, cache = os.path.join(root, "src"), os.path.join(root, "cache")
+    os.makedirs(src)
+    out: dict[str, Any] = {"runs": 0, "violation": None, "nontrivial": False, "trace": []}
+    tick = 1000
+    cur: dict[str, str | None] = {}
+    st_tick = 0
+    for w in worlds:
+        for rel, txt in t_files(w).items():
+            if cur.get(rel) == txt:
+                continue
+            p = os.path.join(src, rel)
+            if txt is None:
+                if os.path.exists(p):
+                    os.unlink(p)
+            else:
+                os.makedirs(os.path.dirname(p), exist_ok=True)
+                with open(p, "w") as fh:
+                    fh.write(txt)
+                tick += 1
+                t = 1_000_000 + tick * 10
+                os.utime(p, (t, t))
+            cur[rel] = txt
+        for d in ("spkg",):
+            dp = os.path.join(src, d)
+            if os.path.isdir(dp) and not os.listdir(dp):
+                os.rmdir(dp)
+        kw = dict(sources=[("main.py", "main")], user_mods="*", extra_opts={"follow_imports": follow})
+        r = W.run_build(src, cache_dir=cache, store=store, fmt=fmt, tick=st_tick, **kw); st_tick = r["tick"]
+        c = W.run_build(src, cache_dir=None, record=False, **kw)
+        out["runs"] += 1
+        out["trace"].append(r["trace"])
+        if r.get("crash") or W.norm(r) != W.norm(c):
+            out["violation"] = {"what": "warm (%s/%s, follow_imports=%s): status %s %r ; cold: status %s %r %s" % (
+                store, fmt, follow, r["status"], r["messages"][:5], c["status"], c["messages"][:5], (r.get("crash") or "")[-300:]), "at_run": out["runs"]}
+            break
+        if any(e["ev"] == "fresh" for e in r["trace"]) and any(e["ev"] == "stale" for e in r["trace"]) and (r["messages"] or out["runs"] > 1):
+            out["nontrivial"] = True
+    shutil.rmtree(root, ignore_errors=True)
+    return out
+
+
+def minimise_t(worlds: list[dict[str, str]], cfg: tuple[str, str], follow: str) -> list[dict[str, str]]:
+    def fails(ws: list[dict[str, str]]) -> bool:
+        return bool(ws) and replay_t_history((ws, cfg, follow))["violation"] is not None
+    cur = [dict(w) for w in worlds]
+    changed = True
+    while changed:
+        changed = False
+        for i in range(len(cur)):
+            cand = cur[:i] + cur[i + 1:]
+            if fails(cand):
+                cur = cand; changed = True
+                break
+        if changed:
+            continue
+        for i in range(1, len(cur)):
+            for m in sorted(cur[i]):
+                if cur[i][m] != cur[i - 1][m]:
+                    cand = [dict(w) for w in cur]
+                    cand[i][m] = cur[i - 1][m]
+                    if fails(cand):
+                        cur = cand; changed = True
+                        break
+            if changed:
+                break
+        if changed:
+            continue
+        for m in sorted(cur[0]):
+            if len({w[m] for w in cur}) == 1 and cur[0][m] != T_DEFAULT[m]:
+                cand = [dict(w, **{m: T_DEFAULT[m]}) for w in cur]
+                if fails(cand):
+                    cur = cand; changed = True
+                    break
+    return cur
+
+
+def t_histories(tier: str) -> list[tuple[list[dict[str, str]], str]]:
+    """Deterministic: every 2-step history whose second world differs in ONE dimension (x both follow modes), plus a fixed
+    pseudo-random set of 3-step histories."""
+    keys = sorted(T_DIMS)
+    worlds = [dict(zip(keys, vals)) for vals in itertools.product(*[T_DIMS[k] for k in keys])]
+    res: list[tuple[list[dict[str, str]], str]] = []
+    for w in worlds:
+        for k in keys:
+            for v2 in T_DIMS[k]:
+                if v2 != w[k]:
+                    w2 = dict(w); w2[k] = v2
+                    for follow in ("normal", "skip"):
+                        if tier == "thorough" or (w["modv"] == "0" and (k != "modv")):
+                            res.append(([w, w2], follow))
+    gen = random.Random(20260927)
+    for _ in range(150 if tier == "quick" else 3000):
+        h = [gen.choice(worlds)]
+        for _ in range(2):
+            nxt = dict(h[-1])
+            for k in gen.sample(keys, gen.choice([1, 2])):
+                nxt[k] = gen.choice(T_DIMS[k])
+            h.append(nxt)
+        res.append((h, gen.choice(["normal", "skip", "error"])))
+    return res
+
 EXT_DIMS = ["c.pyi", "d", "p/__init__", "p/x", "e", "@bdir"]
 
 
@@ -255,6 +392,21 @@ def main(argv: list[str]) -> int:
             if key not in seen:
                 seen.add(key)
                 v.violation(key, {"kind": "R-history", "cfg": cfg, "history": ws, "minimal": mini}, r["violation"]["what"])
+    # ---- 3a. catalogue T: cycles, transitively reachable submodules, stub packages, follow-imports modes
+    twork = [(h, W.CONFIGS[i % 4], follow) for i, (h, follow) in enumerate(t_histories(tier))]
+    tresults = []
+    with ProcessPoolExecutor(16) as pex:
+        for res in pex.map(replay_t_history, twork, chunksize=8):
+            tresults.append(res)
+    n_runs += sum(r["runs"] for r in tresults)
+    tseen = set()
+    for (ws, cfg, follow), r in zip(twork, tresults):
+        if r["violation"]:
+            mini = minimise_t(ws[: r["violation"]["at_run"]], cfg, follow)
+            key = "T:" + json.dumps({"follow": follow, "h": mini}, sort_keys=True)
+            if key not in tseen:
+                tseen.add(key)
+                v.violation(key, {"kind": "T-history", "cfg": cfg, "follow": follow, "history": ws, "minimal": mini}, r["violation"]["what"])
     # ---- 3b. the repository's own multi-step incremental scenarios, expected outputs ignored
     from harness import corpus as C
     from harness.common import REPO
@@ -284,13 +436,13 @@ def main(argv: list[str]) -> int:
         v.violation("trace:" + json.dumps(rej["at"]), rej, "recorded store trace is not a behaviour of Trace_Incremental.tla: " + rej["why"])
     if tv["validated"] == 0 or n_runs == 0:
         raise MachineryError("conformance step did not run")
-    nontrivial = sum(1 for r in results + rresults + cresults if r["nontrivial"])
+    nontrivial = sum(1 for r in results + rresults + cresults + tresults if r["nontrivial"])
     coverage = {
         "states": states, "transitions": transitions,
         "traces_validated_against_impl": tv["validated"],
-        "evaluations": len(work) + len(rwork), "distinct_nontrivial": nontrivial, "runs_compared_with_cold": n_runs,
+        "evaluations": len(work) + len(rwork) + len(twork) + len(cwork), "distinct_nontrivial": nontrivial, "runs_compared_with_cold": n_runs,
         "corpus_cases_run": sum(1 for r in cresults if not r["skipped"]), "corpus_cases_skipped": sum(1 for r in cresults if r["skipped"]),
-        "model_histories": len(hists), "model_history_replays": len(work), "r_two_step": len(pairs), "r_multi_step": len(multi),
+        "model_histories": len(hists), "model_history_replays": len(work), "r_two_step": len(pairs), "r_multi_step": len(multi), "t_histories": len(twork),
         "model_drift": [{"cfg": w[1], "drift": d} for w, d in drift[:10]], "model_drift_count": len(drift),
         "rule": "every history TLC emits for Gen_Incremental.cfg (<=3 runs, <=2 edits, <=1 touch over catalogue M) replayed in the store x format "
                 "configurations (quick: rotating, thorough: all four); catalogue R two-step histories (thorough: all 9,120) and a fixed set of 3-4 step "
